@@ -6,6 +6,7 @@ import (
 	"fmt"
 	"os"
 	"runtime/debug"
+	"runtime/pprof"
 	"sort"
 	"strconv"
 	"strings"
@@ -33,7 +34,14 @@ func main() {
 	verif := flag.String("verif", "/verif", "verification directory (known_findings.txt, evidence/)")
 	replay := flag.String("replay", "", "report file to replay")
 	list := flag.Bool("list", false, "list registered properties")
+	prof := flag.String("cpuprofile", "", "write a CPU profile (development)")
 	flag.Parse()
+	if *prof != "" {
+		f, _ := os.Create(*prof)
+		pprof.StartCPUProfile(f)
+		defer pprof.StopCPUProfile()
+		exit = func(c int) { pprof.StopCPUProfile(); os.Exit(c) }
+	}
 	if *list {
 		for _, k := range sortedKeys(registry) {
 			fmt.Println(k)
@@ -110,8 +118,10 @@ func main() {
 			code = c
 		}
 	}
-	os.Exit(code)
+	exit(code)
 }
+
+var exit = os.Exit
 
 func runVariant(r *Run, rs *ruleSet, p *Prog, err error, suffix string) {
 	if err != nil || p == nil {
